@@ -148,4 +148,92 @@ PROPS["C13"] = {
                   "JSON values of the wrong type at a typed position follow Go's lenient accessors in the model (they belong to C19's quantifier).",
 }
 
+
+def _strip(keys):
+    def cmp(kind, case, impl, model):
+        from check import canon, first_diff
+        m = {k: v for k, v in model.items() if k not in keys}
+        i = {k: v for k, v in impl.items() if k not in keys}
+        if canon(i) == canon(m):
+            return None
+        return first_diff(canon(i), canon(m))
+    return cmp
+
+
+def _actions(r):
+    return ",".join(sorted({p.get("action", "?") if isinstance(p, dict) else "?" for p in r["case"].get("patches", [])}))
+
+
+PROPS["C10"] = {
+    "theorem_modules": ["Sidetree.Props.C10"],
+    "prescribes": "Sidetree.Composer.applyPatches with Sidetree.JsonPatch.Lib (Props.C10); RFC 6902 side: Sidetree.JsonPatch.Rfc.applyOp",
+    "obligations": [
+        {"name": "C10_composerShape", "facts": ["composerDispatch", "applyJSONShape"]},
+    ],
+    "streams": [{"gen": "C10", "quick": 5000, "thorough": 250000}],
+    "compare": _strip({"deviation"}),
+    "property_check": lambda r: ("compose/ietf/" + r["model"]["deviation"]) if r["model"].get("deviation") else None,
+    "label": lambda r: r["model"].get("class", "?") + "/" + _actions(r),
+    "nontrivial": lambda r: r["model"].get("class") == "ok",
+    "shape": lambda r: [r["case"]["doc"], r["case"]["patches"]],
+    "rule": "starting documents: {} or generated documents with key/service/also-known-as lists over small id pools plus further members; 1-6 validated patches of all "
+            "eight actions with ids that collide with, partially overlap or miss existing entries, remove-then-re-add, replace-then-add, also-known-as duplicates; ietf patches "
+            "with RFC-valid pointers over objects, arrays (in range, end, beyond), null members, escaped tokens, copy/move followed by edits under the destination. Compared: class, "
+            "resulting document (as a value), nil-on-error, and that neither input changed. In addition every ietf operation is run through RFC 6902 as written; a case where the "
+            "library (and the implementation) deviates is a property-level violation classified by operation kind and relation. Non-trivial = list applied; distinct = distinct (doc, patches).",
+    "technique": "Lean 4 theorems (per-action semantics = declarative spec, fold, unique-id invariant) + faithful library model vs RFC 6902 model + differential correspondence",
+    "level_text": "Proved in Lean: ApplyPatches is the left fold of the per-action step with first-failure abort; add-keys/add-services = upsert-by-id spec (existing order kept, replaced in place, "
+                  "new entries appended), remove = filter by id (unknown ids ignored), also-known-as = ordered union / difference, replace = exactly the given keys and services; unique ids are "
+                  "preserved by every validated non-ietf patch and by ietf patches (via C11). The ietf action is modelled twice - the pinned library as it behaves (validated against the "
+                  "implementation on every case) and RFC 6902 as written - and the check reports every operation where the two part ways.",
+    "level_note": "Trusted: Lean kernel; extractor; harness. KNOWN FINDINGS: evanphx/json-patch v4.1.0 deviates from RFC 6902 (replace/copy/move/test accept what the RFC refuses; move/copy to an "
+                  "existing array index overwrite instead of inserting); no newer library is available offline. Go map iteration order is abstracted (documents compared as values).",
+}
+
+PROPS["C11"] = {
+    "theorem_modules": ["Sidetree.Props.C11"],
+    "prescribes": "Sidetree.Props.C11.validated_preserves_protected",
+    "obligations": [
+        {"name": "C11_ietfValidator", "facts": ["protectedPrefixes", "inspectedMembers", "ietfConds", "pointerConds"]},
+        {"name": "C10_composerShape", "facts": ["composerDispatch", "applyJSONShape"]},
+    ],
+    "streams": [{"gen": "C11", "quick": 6000, "thorough": 300000}],
+    "property_check": lambda r: "protect/validated-patch-changed-protected-member" if r["impl"].get("protected_changed") else None,
+    "label": lambda r: r["model"].get("validate", "?") + "/" + str(r["model"].get("apply")) + "/" + ",".join(sorted({o.get("op", "?") for o in r["case"]["patch"]["patches"] if isinstance(o, dict)})),
+    "nontrivial": lambda r: r["model"].get("validate") == "ok",
+    "shape": lambda r: r["case"]["patch"],
+    "rule": "a document with keys, services and look-alike members (publickey, Service, ~publicKey, /publicKey, nested publicKey/service, empty name) and one ietf-json-patch of 1-3 operations "
+            "over all six kinds whose path/from range over the protected members, their elements and sub-members, '-', siblings sharing a prefix, look-alikes, escaped tokens, root, "
+            "empty, doubled and trailing slashes, pointers without a leading slash, in path, from, or value; plus copy-then-edit-the-copy sequences. Compared: validator verdict, apply class, "
+            "whether publicKey/service changed; and directly: accepted and applied but protected member changed = violation. Non-trivial = patch accepted; distinct = distinct patch.",
+    "technique": "Lean 4 theorem by induction over the operation list on the faithful library model + go/ast obligations on the validator + differential correspondence",
+    "level_text": "Proved in Lean for every document, every operation list and all six kinds: if the validator model accepts the patch and the (faithful) library model applies it, the "
+                  "publicKey and service members of the result are the ones of the input. The validator facts used (protected prefixes, both path and from inspected, pointers must start "
+                  "with '/') are regenerated from the Go AST on every run.",
+    "level_note": "Trusted: Lean kernel; extractor; harness; the library model (validated by the C10/C11 streams: 0 disagreements on the unchanged tree). Rests on the repaired per-operation "
+                  "application (no node sharing between operations).",
+}
+
+PROPS["C14"] = {
+    "theorem_modules": ["Sidetree.Props.C14"],
+    "prescribes": "Sidetree.PatchBuild.fromDocument + Sidetree.Composer.applyPatches (Props.C14)",
+    "obligations": [
+        {"name": "C14_actionConfig", "facts": ["actionConfig"]},
+        {"name": "C14_fromDocumentShape", "facts": ["fromDocumentCases", "jsonPatchAddTemplate"]},
+    ],
+    "streams": [{"gen": "C14", "quick": 4000, "thorough": 200000}],
+    "label": lambda r: _lab(r, r["model"].get("class")),
+    "nontrivial": lambda r: r["model"].get("class") == "ok",
+    "shape": lambda r: r["case"]["doc"],
+    "rule": "documents without an id whose publicKey/service/alsoKnownAs members are non-empty lists (keys of every type, services with every endpoint shape) plus further members with "
+            "ordinary names over all Unicode planes and arbitrary simple JSON values; labelled out-of-quantifier shapes (with id, empty id, empty/ill-typed alsoKnownAs, ill-typed publicKey, "
+            "non-objects). Compared: PatchesFromDocument result (patch list as values), validation verdict of every produced patch, Bytes()/FromBytes round trip with accessor agreement, "
+            "and the document obtained by applying the patches to {}. Non-trivial = patches produced; distinct = distinct document text.",
+    "technique": "Lean 4 theorems (document -> patches -> document round trip; action table by decide) + differential correspondence",
+    "level_text": "Proved in Lean: for every document in the quantifier, applying fromDocument's patches to the empty document succeeds and gives a document with the same members; documents "
+                  "with an id are refused; a value is acceptable as a patch iff it has a supported action and that action's value member (table tied to patch.go by an obligation). "
+                  "The bytes round trip and 'constructed patches validate' rest on the correspondence stream (Go's encoding/json is not modelled beyond values).",
+    "level_note": "Trusted: Lean kernel; extractor; harness. Member names with JSON-pointer or quoting metacharacters are outside the quantifier (the driver answers out-of-domain).",
+}
+
 NOT_CLAIMED = {}
